@@ -24,6 +24,9 @@ type Mutant struct {
 	New  string
 	Rule string // rule expected to report a violation
 	Key  string // substring expected in the key of a failing obligation ("" = any)
+	// Also: further single-occurrence replacements in the same file, applied with the first (a change that only
+	// compiles when two places change together, e.g. a callback and its registration)
+	Also [][2]string
 }
 
 var modPrefix = map[string]string{"v2": fw.V2Prefix, "execution": fw.ExecPrefix}
